@@ -330,3 +330,91 @@ def on_every_cycle(body, bb):
         seen.add(b_)
         todo += [s_ for s_ in body.succ(b_) if s_ in blocks and s_ != bb]
     return True
+
+
+def counter_sequence(body, limit=64):
+    """For a body with exactly one loop driven by a counter (`let mut c = K0; while c <op> K1 { ..; c += / -= k }`): the
+    list of values the counter takes in the loop body, computed from the constants; None when the loop is not of that
+    shape.  Returns (counter local, [values])."""
+    ix = BodyIndex(body)
+    loops = Explorer(body).loops()
+    if len(loops) != 1:
+        return None
+    (h, (blocks, _a)), = loops.items()
+    latches = [p for p in body.pred(h) if p in blocks]
+    step = None
+    for bi in blocks:
+        for st in body.blocks[bi]["s"]:
+            if st["k"] != "assign" or st["lhs"]["p"]:
+                continue
+            rv = st["rv"]
+            binrv = None
+            if rv["k"] == "use":
+                p = op_place(rv["a"])
+                if p and len(p["p"]) == 1 and isinstance(p["p"][0], dict) and p["p"][0].get("f") == 0:
+                    d0 = ix.single_def(p["l"])
+                    if d0 and d0[0] == "assign" and d0[3]["rv"]["k"] == "bin":
+                        binrv = d0[3]["rv"]
+            elif rv["k"] == "bin":
+                binrv = rv
+            if not binrv:
+                continue
+            op = binrv["op"].replace("WithOverflow", "").replace("Unchecked", "")
+            if op not in ("Add", "Sub"):
+                continue
+            k, src = const_int(binrv["b"]), _strip_cast(ix, binrv["a"])
+            if k is None and op == "Add":
+                k, src = const_int(binrv["a"]), _strip_cast(ix, binrv["b"])
+            if k is not None and k > 0 and src == st["lhs"]["l"] and all(body.dominates(bi, l_) for l_ in latches):
+                if step is not None:
+                    return None
+                step = (st["lhs"]["l"], k if op == "Add" else -k)
+    if step is None:
+        return None
+    c, k = step
+    inits = [d for d in body.defs().get(c, []) if d[1] not in blocks]
+    if len(inits) != 1 or inits[0][0] != "assign" or inits[0][3]["rv"]["k"] != "use" or const_int(inits[0][3]["rv"]["a"]) is None:
+        return None
+    init = const_int(inits[0][3]["rv"]["a"])
+    test = None
+    for bi in sorted(blocks):
+        t = body.blocks[bi]["t"]
+        if t["k"] != "switch":
+            continue
+        targets = [(int(v), tg) for v, tg in t["arms"]] + ([(None, t["else"])] if isinstance(t.get("else"), int) else [])
+        live = [(v, tg) for v, tg in targets if body.blocks[tg]["t"]["k"] != "unreachable"]
+        if not any(tg not in blocks for _v, tg in live):
+            continue
+        r = ix.resolve(t["a"])
+        if not (r[0] == "rv" and r[1]["k"] == "bin" and r[1]["op"] in ("Lt", "Le", "Gt", "Ge", "Ne", "Eq")):
+            return None
+        a, b = r[1]["a"], r[1]["b"]
+        ka, kb = const_int(a), const_int(b)
+        if kb is not None and _strip_cast(ix, a) == c:
+            op, bound = r[1]["op"], kb
+        elif ka is not None and _strip_cast(ix, b) == c:
+            op, bound = {"Lt": "Gt", "Le": "Ge", "Gt": "Lt", "Ge": "Le", "Ne": "Ne", "Eq": "Eq"}[r[1]["op"]], ka
+        else:
+            return None
+        # which outcome of the comparison stays in the loop
+        stay = [v for v, tg in live if tg in blocks]
+        if len(stay) != 1 or test is not None or not all(body.dominates(bi, l_) for l_ in latches):
+            return None
+        sv = stay[0]
+        if sv is None:
+            others = [v for v, _tg in live if v is not None]
+            sv = 1 if others == [0] else 0 if others == [1] else None
+        if sv is None:
+            return None
+        test = (op, bound, bool(sv))
+    if test is None:
+        return None
+    op, bound, stay_when = test
+    fn = {"Lt": lambda x: x < bound, "Le": lambda x: x <= bound, "Gt": lambda x: x > bound, "Ge": lambda x: x >= bound, "Ne": lambda x: x != bound, "Eq": lambda x: x == bound}[op]
+    seq, x = [], init
+    while fn(x) == stay_when and len(seq) <= limit:
+        seq.append(x)
+        x += k
+    if len(seq) > limit:
+        return None
+    return c, seq
